@@ -40,6 +40,12 @@ def run(ck):
     ck.mc("MCPrintBuf", "C19_mc_t.cfg" if thorough else "C19_mc.cfg", workers=16 if thorough else 8, xmx="16g", timeout=3000)
     for m in MUTS:
         ck.mc_must_fail("MCPrintBuf", "C19_asfound_%s.cfg" % m, workers=4, timeout=600)
+    # every capacity, length and argument value (the size arithmetic over the integers with the real constants): an inductive
+    # invariant checked by Apalache; the capacity test that forgets the terminator's byte must break it
+    ck.prove("PrintBufInd", "CInit", "Init", "IndInv", 0)
+    ck.prove("PrintBufInd", "CInit", "IndInv", "IndInv", 1)
+    ck.prove("PrintBufInd", "CInit", "IndInv", "Safety", 0)
+    ck.prove("PrintBufInd", "CInitBad", "IndInv", "IndInv", 1, must_fail=True)
     exe = vlib.build("san", vlib.harness_sources(), "vh")
     # ---- G
     hists, r = vlib.tlc_export_edges("GPrintBuf", "C19_g_t.cfg" if thorough else "C19_g.cfg", timeout=1800)
